@@ -5,5 +5,6 @@ stream `ref` prints the reference verdicts of a bare geometry line. -/
 def main (args : List String) : IO UInt32 := do
   match args with
   | ["valid-grid"] => Driver.loop (← IO.getStdin) (← IO.getStdout) Driver.C05.check; return 0
+  | ["node-topo"] => Driver.loop (← IO.getStdin) (← IO.getStdout) Driver.C05.nodeTopo; return 0
   | ["ref"] => Driver.loop (← IO.getStdin) (← IO.getStdout) Driver.C05.refOnly; return 0
   | _ => IO.eprintln "usage: drv_c05 valid-grid|ref"; return 2
